@@ -32,6 +32,18 @@ type ReadCase struct {
 	MSize  int
 	Frames []FrameSpec
 	Plan   []int // read chunk sizes (cycled); empty = whole-buffer reads
+	// ResizeAt > 0: before reading frame number ResizeAt the channel's msize is changed to
+	// ResizeTo with SetMSize (between two reads, as the interface allows); frames from
+	// there on are built for, and judged against, the new msize
+	ResizeAt int `json:",omitempty"`
+	ResizeTo int `json:",omitempty"`
+}
+
+func (c *ReadCase) msizeAt(i int) int {
+	if c.ResizeAt > 0 && i >= c.ResizeAt {
+		return c.ResizeTo
+	}
+	return c.MSize
 }
 
 // bytesOf renders a spec for msize; final=true means nothing may follow it.
@@ -186,8 +198,12 @@ func GenReadCase(t *rapid.T) ReadCase {
 		maxFrames = 20
 	}
 	n := rapid.IntRange(1, maxFrames).Draw(t, "nframes")
+	if n >= 2 && rapid.IntRange(0, 3).Draw(t, "resize") == 0 {
+		c.ResizeAt = rapid.IntRange(1, n-1).Draw(t, "resizeat")
+		c.ResizeTo = rapid.OneOf(rapid.Just(c.MSize), rapid.IntRange(c.MSize, c.MSize+300), rapid.IntRange(24, 400)).Draw(t, "resizeto")
+	}
 	for i := 0; i < n; i++ {
-		c.Frames = append(c.Frames, genFrame(t, c.MSize, i == n-1))
+		c.Frames = append(c.Frames, genFrame(t, c.msizeAt(i), i == n-1))
 	}
 	switch rapid.IntRange(0, 3).Draw(t, "planclass") {
 	case 0:
@@ -230,6 +246,10 @@ func readStream(msize int, stream []byte, plan []int, nreads int) (outs []outcom
 }
 
 func readStreamInit(init, msize int, stream []byte, plan []int, nreads int) (outs []outcome, perr error) {
+	return readStreamResize(init, msize, 0, 0, stream, plan, nreads)
+}
+
+func readStreamResize(init, msize, resizeAt, resizeTo int, stream []byte, plan []int, nreads int) (outs []outcome, perr error) {
 	a, b := memconn.NewPair(memconn.Options{})
 	defer a.Close()
 	defer b.Close()
@@ -254,7 +274,28 @@ func readStreamInit(init, msize int, stream []byte, plan []int, nreads int) (out
 		ch = p9p.NewChannel(a, msize)
 	}
 	ctx := context.Background()
+	var kept []*p9p.Fcall // every Fcall delivered, to be looked at again after all later reads
+	defer func() {
+		if perr != nil {
+			return
+		}
+		k := 0
+		for i := range outs {
+			if outs[i].msg == nil {
+				continue
+			}
+			again, cerr := gen.FromFcall(kept[k])
+			k++
+			if cerr != nil || !reflect.DeepEqual(again, outs[i].msg) {
+				perr = fmt.Errorf("the message delivered by ReadFcall #%d changed after later reads on the channel (it shares memory with the channel's buffer): was %s, now %s", i, js(outs[i].msg), js(again))
+				return
+			}
+		}
+	}()
 	for i := 0; i < nreads; i++ {
+		if resizeAt > 0 && i == resizeAt {
+			ch.SetMSize(resizeTo)
+		}
 		var o outcome
 		func() {
 			defer func() {
@@ -276,6 +317,7 @@ func readStreamInit(init, msize int, stream []byte, plan []int, nreads int) (out
 				return
 			}
 			o.msg = m
+			kept = append(kept, fc)
 		}()
 		if perr != nil {
 			return outs, perr
@@ -338,21 +380,24 @@ func RunRead(c ReadCase) harn.Result {
 	var exps []expect
 	res := harn.Result{}
 	for i := range c.Frames {
-		raw, final := c.Frames[i].bytesOf(c.MSize)
+		raw, final := c.Frames[i].bytesOf(c.msizeAt(i))
 		raws = append(raws, raw)
-		exps = append(exps, expectFor(raw, c.MSize, final))
+		exps = append(exps, expectFor(raw, c.msizeAt(i), final))
 		stream = append(stream, raw...)
 		res.Classes = append(res.Classes, "f_"+c.Frames[i].Class)
 		if final && i != len(c.Frames)-1 {
 			return harn.Fail("internal: final element not last")
 		}
 	}
-	outs, perr := readStreamInit(c.Init, c.MSize, stream, c.Plan, len(raws)+1)
+	outs, perr := readStreamResize(c.Init, c.MSize, c.ResizeAt, c.ResizeTo, stream, c.Plan, len(raws)+1)
 	if perr != nil {
 		return harn.Result{Err: perr}
 	}
 	if c.Init != 0 {
 		res.Classes = append(res.Classes, "after_setmsize")
+	}
+	if c.ResizeAt > 0 {
+		res.Classes = append(res.Classes, "setmsize_between_reads")
 	}
 	for i, e := range exps {
 		if !matches(outs[i], e) {
@@ -362,10 +407,10 @@ func RunRead(c ReadCase) harn.Result {
 			} else if e.overflow > 0 {
 				want = fmt.Sprintf("overflow error of exactly %d", e.overflow)
 			}
-			return harn.Fail("frame %d (%s, %d bytes, msize %d): got %s; want %s", i, c.Frames[i].Class, len(raws[i]), c.MSize, describe(outs[i]), want)
+			return harn.Fail("frame %d (%s, %d bytes, msize %d): got %s; want %s", i, c.Frames[i].Class, len(raws[i]), c.msizeAt(i), describe(outs[i]), want)
 		}
 		// isolation: the same frame alone on a fresh channel gives the same outcome
-		iso, perr := readStream(c.MSize, raws[i], nil, 1)
+		iso, perr := readStream(c.msizeAt(i), raws[i], nil, 1)
 		if perr != nil {
 			return harn.Result{Err: perr}
 		}
